@@ -70,8 +70,11 @@ def runOp (op : String) (variant : List String) (ints : List Nat) (xs : Array α
       -- guard-lattice coverage tag: operator / classification of each operand by the model's guards / base-rate path
       let cls (w : Opinion α i0) : String := if w.isDogmatic then "dog" else if w.isVacuous then "vac" else "mid"
       let opn := match fuseOpOfNat i1 with | .acm => "acm" | .ecm => "ecm" | .avg => "avg" | .wgh => "wgh"
-      let tag := opn ++ ":" ++ cls l ++ "-" ++ cls r ++ (if i2 == 1 then ":shared" else "")
-      return .ok (fuse (fuseOpOfNat i1) (i2 == 1) l r).flat [] [tag]
+      -- `alias`: the harness passes the SAME object twice (second operand's scalars are ignored)
+      let alias := variant.contains "alias"
+      let r := if alias then l else r
+      let tag := opn ++ ":" ++ cls l ++ "-" ++ cls r ++ (if i2 == 1 then ":shared" else "") ++ (if alias then ":alias" else "")
+      return .ok (fuse (fuseOpOfNat i1) (i2 == 1 || alias) l r).flat [] [tag]
   | "fuse_os" => go do
       let l ← rdOpinion i0
       let r ← rdSimplex i0
@@ -79,6 +82,7 @@ def runOp (op : String) (variant : List String) (ints : List Nat) (xs : Array α
   | "fuse_ss" => go do
       let l ← rdSimplex i0
       let r ← rdSimplex i0
+      let r := if variant.contains "alias" then l else r
       match fuseSS (fuseOpOfNat i1) l r with
       | some s => return .ok s.flat
       | none => return { cls := "panic", label := "?" }
@@ -222,6 +226,14 @@ def runOp (op : String) (variant : List String) (ints : List Nat) (xs : Array α
       let dflt : Opinion α n := ⟨Vector.replicate n Scalar.zero, Scalar.zero, Vector.replicate n Scalar.zero⟩
       let w (j : Nat) : Opinion α n := ws.getD (perm.getD j 0) dflt
       if k == 0 then return .unsupported
+      if variant.contains "alias" then
+        -- every step fuses the accumulator with the same object w[p0]; the first step is fuse(&w, &w)
+        let w0 := w 0
+        if k == 1 then return .ok w0.flat
+        let mut acc := fuse fop true w0 w0
+        for _ in [2:k] do
+          acc := if style == 3 then fuse fop false w0 acc else fuse fop false acc w0
+        return .ok acc.flat
       if style == 3 then
         -- right-nested grouping
         let rec nest (js : List Nat) (fuel : Nat) : Opinion α n :=
